@@ -362,6 +362,52 @@ def run(ctx):
                         expected="exit 0 with every reference %s" % ("traversed" if want else "left alone (only the ROOT is traversed)"),
                         observed={"rc": rc, "marks": {k.decode(): v for k, v in marks.items()}, "stderr": err[:200].decode("latin1")}))
             shutil.rmtree(d, ignore_errors=True)
+        # directed: a group exists — and takes its place among its siblings — from its FIRST entry on, whatever variable that
+        # entry sets: opening it with a setting git-sizer does not use (description, url, ...) gives the report of the same
+        # configuration in which that entry is a copy of the group's first rule; a group that has such entries only is an
+        # error, as a group without rules always is
+        for opener in ("description = the z group", "url = https://example.com/z", "colour", "includes = refs/heads"):
+            for order_ in ("zeta-first", "alpha-first"):
+                texts = {}
+                for variant in ("unknown", "copy"):
+                    first = "\t" + (opener if variant == "unknown" else "include = refs/heads/a")
+                    z1, a1 = '[refgroup "zeta"]\n' + first + "\n", '[refgroup "alpha"]\n\tinclude = refs/tags\n'
+                    z2 = '[refgroup "zeta"]\n\tinclude = refs/heads/a\n\tname = Zed\n[refgroup "zeta.sub"]\n\tinclude = refs/heads/a\n'
+                    texts[variant] = (z1 + a1 + z2) if order_ == "zeta-first" else (a1.replace("alpha", "beta") + z1 + a1 + z2)
+                outs = {}
+                for variant, txt in texts.items():
+                    d = os.path.join(scratch, "opener")
+                    s, c = RC.base_scenario()
+                    for n in (b"refs/heads/a", b"refs/heads/b", b"refs/tags/t"):
+                        s.refs.append((n, c))
+                    s.compute()
+                    gitdir = s.materialise(d)
+                    with open(os.path.join(gitdir, "config"), "a") as f:
+                        f.write(txt)
+                    outs[variant] = [S.run_sizer(ctx["bins"]["sizer"], d, a + ["--no-progress"])[:2] for a in (["-v"], ["--json", "--json-version=2"], ["--json"])]
+                    shutil.rmtree(d, ignore_errors=True)
+                res.case(("unknown-opener", opener, order_), True)
+                if outs["unknown"] != outs["copy"] or any(rc != 0 for rc, _ in outs["copy"]):
+                    k = next((i for i in range(3) if outs["unknown"][i] != outs["copy"][i]), 0)
+                    res.violations.append(vlib.Violation(
+                        "a refgroup opened by a setting git-sizer does not use is not placed (or not read) as its first entry says",
+                        {"local": texts["unknown"].splitlines(), "format": (["-v"], ["--json", "--json-version=2"], ["--json"])[k]},
+                        expected=[l for l in outs["copy"][k][1].decode("latin1").splitlines() if l not in outs["unknown"][k][1].decode("latin1").splitlines()][:12] or "the same lines in another order: " + " / ".join(l.strip("| ").split("|")[0].strip() for l in outs["copy"][k][1].decode("latin1").splitlines() if "efs" in l or "eta" in l or "lpha" in l)[:600],
+                        observed={"rc": outs["unknown"][k][0], "lines": [l for l in outs["unknown"][k][1].decode("latin1").splitlines() if l not in outs["copy"][k][1].decode("latin1").splitlines()][:12] or " / ".join(l.strip("| ").split("|")[0].strip() for l in outs["unknown"][k][1].decode("latin1").splitlines() if "efs" in l or "eta" in l or "lpha" in l)[:600]}))
+        for only in ('[refgroup "omega"]\n\tdescription = nothing else\n', '[refgroup "mine"]\n\tinclude = refs/heads\n[refgroup "omega"]\n\turl = x\n'):
+            d = os.path.join(scratch, "only")
+            s, c = RC.base_scenario()
+            s.refs.append((b"refs/heads/a", c))
+            s.compute()
+            gitdir = s.materialise(d)
+            with open(os.path.join(gitdir, "config"), "a") as f:
+                f.write(only)
+            rc, out, err = S.run_sizer(ctx["bins"]["sizer"], d, ["--json", "--no-progress"])
+            shutil.rmtree(d, ignore_errors=True)
+            res.case(("unknown-only", only), True)
+            if rc == 0 or out:
+                res.violations.append(vlib.Violation("a refgroup that has no rule (only a setting git-sizer does not use) is accepted", {"local": only.splitlines()},
+                                                     expected="non-zero exit: the refgroup is not defined", observed={"rc": rc, "stdout": out[:200].decode("latin1")}))
     finally:
         shutil.rmtree(scratch, ignore_errors=True)
     res.coverage_extra["input_distribution"] = dist
